@@ -3471,9 +3471,18 @@ pub fn initialize(env: &mut Env) {
         "≥",
     );
     env.insert_builtin(Divide);
-    env.insert_builtin(TwoNumsToNumsBuiltin {
+    env.insert_builtin(TwoNumsBuiltin {
         name: "%".to_string(),
-        body: |a, b| a % b,
+        body: |a, b| {
+            // The remainder of an integer or rational by an exact zero is undefined (num panics);
+            // raise like // and %% do. Floats and complex numbers keep their IEEE answer.
+            let exact = |x: &NNum| matches!(x, NNum::Int(_) | NNum::Rational(_));
+            if exact(&a) && exact(&b) && !b.is_nonzero() {
+                Err(NErr::value_error("division by zero".to_string()))
+            } else {
+                Ok(Obj::Num(a % b))
+            }
+        },
     });
     env.insert_builtin(TwoNumsBuiltin {
         name: "//".to_string(),
